@@ -21,7 +21,7 @@ func init() {
 	core.Register(&core.Check{
 		ID:    "C06",
 		Level: "exploration",
-		Rule: "E-proc + child exit status: Close is injected at PRNG-chosen points of a running history (idle, mid-burst with a mutator goroutine writing into watched directories, reader parked in a blocked send, concurrently with Add/Remove/WatchList and with 1-8 other Close calls) " +
+		Rule: "E-proc + child exit status: Close is injected at PRNG-chosen points of a running history (idle, mid-burst with a mutator goroutine writing into watched directories, reader parked in a blocked send, a watched path deleted and still unprocessed, concurrently with Add/Remove/WatchList and with 1-8 other Close calls) " +
 			"x consumer {both, only Events, only Errors, neither until close, stops midway} x buffer {default,0,1,16,4096} x GOMAXPROCS {1,2,4,16}, PRNG delays at the verif yield points. Oracles: the child must not die with 'send on closed channel'/'close of closed channel' (any panic is a violation); " +
 			"every Close returns nil; once all Close calls have returned both channels must report closed (bounded progress; if not, the goroutine dump decides: no reader goroutine left => violated) after at most cap(Events) further values; afterwards Add => ErrClosed, Remove => nil, WatchList => nil, Close => nil, from several goroutines. " +
 			"distinct_nontrivial = distinct (close point, consumer, buffer, closers, procs) cases in which events were flowing (>=1 send probed) before Close",
